@@ -105,8 +105,9 @@ def r2_open_coverage(P, rep, ctx):
     uni = [n for n in g.nodes if n.kind == "for" and isinstance(n.stmt.target, ast.Name) and f.x(n.stmt.iter) == f"range(1, {N})"]
     if uni and len(calls) == 2:
         return _unified_patch_loop(rep, f, fi, g, rv, uni[0], calls, rets, N)
-    if len(calls) < 3:
+    if len(calls) < 2:
         raise AnalysisError(f"C04.R2: only {len(calls)} _check_ublock calls in _open")
+    # (with two direct calls the base / newest checks are judged below and the missing middle check is reported there)
 
     elem_of: Dict[str, str] = {}  # loop element variable -> the indexed expression it stands for
 
